@@ -405,7 +405,7 @@ class C17Conf(Suite):
     oeq = "conf_eqb"
     spec = "conf_spec"
     corr = "Graph.bind/parse/serialize, NamespaceManager with bind_namespaces=rdflib|core|none (conformance only)"
-    quick_n = 80
+    quick_n = 50
     thorough_n = 2000
     timeout_s = 20.0
 
@@ -515,7 +515,303 @@ class C17Conf(Suite):
                 yield dict(case, iris=case["iris"][:i] + case["iris"][i + 1:])
 
 
-SUITES = [C17(), C17Conf()]
+# ------------------------------------------------------------------ Dataset / ConjunctiveGraph + named graphs
+GRAPH_IDS = ["h:g1", "h:g2"]
+
+
+def make_root(kind, defaults):
+    """a Dataset / ConjunctiveGraph over a fresh Memory store; defaults None = whatever the class does"""
+    store = Memory()
+    root = Dataset(store=store) if kind == "dataset" else ConjunctiveGraph(store=store)
+    if defaults is not None:
+        root.namespace_manager = NamespaceManager(root, bind_namespaces=defaults)
+    root.namespace_manager  # created lazily otherwise
+    return root
+
+
+class Objs:
+    """the graph objects of one store a history is routed through: index 0 is the root, the
+    others are named graphs obtained from it (kind: graph | get_context | contexts | fresh | dc)"""
+
+    def __init__(self, root, specs):
+        self.root = root
+        self.specs = specs
+        self.fixed = [root]
+        for kind, ident in specs:
+            u = URIRef(ident)
+            if kind == "graph" and isinstance(root, Dataset):
+                self.fixed.append(root.graph(u))
+            elif kind == "contexts":
+                root.get_context(u).add((URIRef("h:s"), URIRef("h:p"), URIRef("h:o")))
+                self.fixed.append(next(c for c in root.contexts() if c.identifier == u))
+            elif kind == "dc":
+                self.fixed.append(root.default_context)
+            elif kind == "fresh":
+                self.fixed.append(None)
+            else:
+                self.fixed.append(root.get_context(u))
+
+    def get(self, i):
+        o = self.fixed[i]
+        if o is None:  # a new object for the same named graph at every use
+            o = self.root.get_context(URIRef(self.specs[i - 1][1]))
+        return o
+
+    def all(self):
+        return [self.get(i) for i in range(len(self.fixed))]
+
+
+class C17Dataset(Suite):
+    """One store, several graph objects (a Dataset/ConjunctiveGraph and named graphs obtained from
+    it): every operation goes through one of them, after every step every IRI is asked through
+    every object.  The objects share one NamespaceManager, so the model of one store + one
+    manager applies; a named graph that came with a manager of its own would answer from a
+    cache the other objects' binds do not empty."""
+
+    name = "nsdataset"
+    imports = "From RV Require Import Namespace.Model."
+    case_ty = "case"
+    obs_ty = "dobs"
+    model = "d_model"
+    oeq = "d_eqb"
+    spec = "d_spec"
+    corr = ("ConjunctiveGraph.get_context / Dataset.graph / contexts() hand the dataset's NamespaceManager to the named "
+            "graph; Graph.bind/qname/parse through any of the objects")
+    quick_n = 150
+    thorough_n = 6000
+
+    # case = {"root": "dataset"|"cg", "objs": [[kind, ident]...], "iris": [...], "ops": [op...], "via": [index...]}
+    # ops as in C17 plus ["parse1", prefix, ns]: parse (through a named graph) of a Turtle document with that one @prefix
+    def gen(self, rng, i):
+        root = rng.choice(["dataset", "dataset", "cg"])
+        kinds = ["graph", "get_context", "contexts", "fresh"] if root == "dataset" else ["get_context", "contexts", "fresh"]
+        objs = [[rng.choice(kinds), g] for g in rng.sample(GRAPH_IDS, rng.choice([1, 1, 2]))]
+        nss = rng.sample(NAMESPACES, 3)
+        pfx = rng.sample(["a", "b", "", None, "_g", "ns1", "c"], 3)
+        iris = [rng.choice(nss) + rng.choice(["x", "b", "1", "ab"]) for _ in range(rng.choice([1, 2]))]
+        ops, via = [], []
+        for _ in range(rng.choice([2, 3, 4, 5, 6])):
+            r = rng.random()
+            u = rng.choice(iris)
+            v = rng.randrange(len(objs) + 1)
+            if r < 0.40:
+                fl = rng.choice([(True, False), (True, False), (False, False), (False, True), (True, True)])
+                ops.append(["bind", rng.choice(pfx), rng.choice(nss), fl[0], fl[1], True])
+            elif r < 0.52:
+                ops.append(["parse1", rng.choice([p for p in pfx if p] or ["a"]), rng.choice(nss)])
+                v = rng.randrange(1, len(objs) + 1)  # through the dataset object parse goes to default_context
+            elif r < 0.75:
+                ops.append(["qname", u, rng.random() < 0.5])
+            elif r < 0.82:
+                ops.append(["curie", u, True])
+            elif r < 0.88:
+                ops.append(["strict", u, True])
+            elif r < 0.94:
+                ops.append(["norm", u, True])
+            else:
+                ops.append(["reset"])
+            via.append(v)
+        return {"root": root, "objs": objs, "iris": sorted(set(iris)), "ops": ops, "via": via}
+
+    def expanded_ops(self, case):
+        out = []
+        nobj = len(case["objs"]) + 1
+        for op in case["ops"]:
+            out.append(["bind", op[1], op[2], True, False, True] if op[0] == "parse1" else op)
+            for _ in range(nobj):
+                out.extend(["compute", u, False] for u in case["iris"])
+        return out
+
+    def run_impl(self, case):
+        root = make_root(case["root"], "none")
+        objs = Objs(root, case["objs"])
+        names = sorted({x for x in case_strings(case)})
+        obs = []
+        for op, v in zip(case["ops"], case["via"]):
+            o = objs.get(v)
+            if op[0] == "parse1":
+                try:
+                    o.parse(data="@prefix %s: <%s> . <h:s> <h:p> %s:o ." % (op[1], op[2], op[1]), format="turtle")
+                    res = ["unit"]
+                except Exception as e:  # noqa: BLE001
+                    res = ["exn", type(e).__name__]
+            else:
+                res = do_op(o, op)
+            obs.append(snapshot(root, res, names, objs.all()))
+            for i in range(len(case["objs"]) + 1):
+                for u in case["iris"]:
+                    obs.append(snapshot(root, do_op(objs.get(i), ["compute", u, False]), (), ()))
+        return obs
+
+    def on_timeout(self, case):
+        return [{"res": ["s", "!!timeout"], "list": [], "rev": [], "api": False}]
+
+    def coq_case(self, case):
+        ops = self.expanded_ops(case)
+        cats = clist(ctuple(cN(c), cN(k)) for c, k in cat_table({"ops": ops}))
+        return ("{| c_cats := " + cats + "; c_ops := " + clist(c_op(o) for o in ops)
+                + "; c_tag := 0%N |}")
+
+    def coq_obs(self, obs):
+        tab, body = pack_obs(obs)
+        return f"(Packed {tab} {body})"
+
+    def nontrivial(self, case, obs):
+        # a binding change through one object and a question through another
+        b = {v for o, v in zip(case["ops"], case["via"]) if o[0] in ("bind", "parse1")}
+        return bool(b) and (len(b) > 1 or len(case["objs"]) >= 1)
+
+    def features(self, case, obs):
+        f = {"root_" + case["root"]: 1, "snapshots": len(obs), "objects": len(case["objs"]) + 1}
+        for k, _ in case["objs"]:
+            f["obj_" + k] = f.get("obj_" + k, 0) + 1
+        for o, v in zip(case["ops"], case["via"]):
+            f["op_" + o[0] + ("_root" if v == 0 else "_named")] = f.get("op_" + o[0] + ("_root" if v == 0 else "_named"), 0) + 1
+        return f
+
+    def shrink(self, case):
+        ops, via = case["ops"], case["via"]
+        for i in range(len(ops)):
+            yield dict(case, ops=ops[:i] + ops[i + 1:], via=via[:i] + via[i + 1:])
+        if len(case["iris"]) > 1:
+            for i in range(len(case["iris"])):
+                yield dict(case, iris=case["iris"][:i] + case["iris"][i + 1:])
+        if len(case["objs"]) > 1:
+            for i in range(len(case["objs"])):
+                keep = [j for j in range(len(case["objs"])) if j != i]
+                ren = {0: 0}
+                ren.update({j + 1: n + 1 for n, j in enumerate(keep)})
+                if all(v in ren for v in via):
+                    yield dict(case, objs=[case["objs"][j] for j in keep], via=[ren[v] for v in via])
+
+    def sweep(self):
+        import itertools
+        alphabet = [(["bind", "a", "h:e/", True, False, True], 0), (["bind", "b", "h:e/", True, False, True], 1),
+                    (["bind", "a", "h:e/a#", False, True, True], 1), (["parse1", "b", "h:e/"], 1),
+                    (["qname", "h:e/x", True], 0), (["qname", "h:e/x", True], 1), (["reset"], 1)]
+        for kind in ("get_context", "fresh"):
+            for n in (2, 3):
+                for seq in itertools.product(alphabet, repeat=n):
+                    yield {"root": "dataset", "objs": [[kind, "h:g1"]], "iris": ["h:e/x"],
+                           "ops": [list(o) for o, _ in seq], "via": [v for _, v in seq]}
+
+
+class C17DsConf(C17Conf):
+    """No model: a Dataset / ConjunctiveGraph with its default prefixes, named graphs and the
+    default_context object; bind, parse, serialize, add through any of them; every IRI asked through
+    every object after each step; the verified per-step checker on every snapshot."""
+
+    name = "nsdsconform"
+    kf = "conf_kf"
+    kf_ids = {4: "F6e"}
+    corr = "Dataset/ConjunctiveGraph.parse/serialize/bind, get_context, default_context (conformance only)"
+    quick_n = 40
+    thorough_n = 1500
+
+    # case = {"root", "defaults": None|"none"|"core", "objs", "iris", "ops", "via"}
+    def gen(self, rng, i):
+        root = rng.choice(["dataset", "dataset", "cg"])
+        kinds = ["graph", "get_context", "fresh", "contexts"] if root == "dataset" else ["get_context", "fresh", "contexts"]
+        objs = [[rng.choice(kinds), g] for g in rng.sample(GRAPH_IDS, rng.choice([1, 2]))]
+        if rng.random() < 0.12:
+            objs[-1] = ["dc", "dc"]
+        iris = rng.sample(CONF_IRIS, rng.choice([1, 2]))
+        nss = rng.sample(NAMESPACES, 2) + rng.sample(
+            ["http://www.w3.org/2002/07/owl#", "http://xmlns.com/foaf/0.1/", "https://schema.org/"], 1)
+        pfx = rng.sample(["a", "b", "", "ns1", "rdf", "owl", "sdo", "foaf", "_g"], 3)
+        ops, via = [], []
+        for _ in range(rng.choice([2, 3, 4, 5])):
+            r = rng.random()
+            v = rng.randrange(len(objs) + 1)
+            if r < 0.30:
+                fl = rng.choice([(True, False), (True, False), (False, False), (True, True), (False, True)])
+                ops.append(["bind", rng.choice(pfx), rng.choice(nss), fl[0], fl[1], True])
+            elif r < 0.45:
+                ops.append(["parse", rng.choice(sorted(DOCS))])
+                if rng.random() < 0.85:
+                    v = rng.randrange(1, len(objs) + 1)
+            elif r < 0.65:
+                ops.append(["ser", rng.choice(SER_FORMATS)])
+            elif r < 0.75:
+                ops.append(["add", rng.choice(iris), rng.choice(iris), rng.choice(iris + ["lit"])])
+            elif r < 0.90:
+                ops.append(["qname", rng.choice(iris), True])
+            elif r < 0.95:
+                ops.append(["strict", rng.choice(iris), True])
+            else:
+                ops.append(["reset"])
+            via.append(v)
+        return {"root": root, "defaults": rng.choice([None, "none", "core"]), "objs": objs, "iris": iris,
+                "ops": ops, "via": via}
+
+    def tag(self, case):
+        """F6e region: the history goes through ConjunctiveGraph.default_context - the object itself is one
+        of the views, or something is parsed through the dataset object (which delegates to it)"""
+        if any(k == "dc" for k, _ in case["objs"]):
+            return 1
+        return int(any(o[0] == "parse" and v == 0 for o, v in zip(case["ops"], case["via"])))
+
+    def expanded_ops(self, case):
+        out = []
+        for op in case["ops"]:
+            out.append(op)
+            for _ in range(len(case["objs"]) + 1):
+                out.extend(["compute", u, False] for u in case["iris"])
+        return out
+
+    def run_impl(self, case):
+        root = make_root(case["root"], case["defaults"])
+        objs = Objs(root, case["objs"])
+        names = sorted(set(case["iris"]) | {s for s in case_strings(case) if s in NAMESPACES})
+        obs = []
+        for op, v in zip(case["ops"], case["via"]):
+            o = objs.get(v)
+            k = op[0]
+            try:
+                if k == "parse":
+                    fmt, data = DOCS[op[1]]
+                    o.parse(data=data, format=fmt)
+                    res = ["unit"]
+                elif k == "ser":
+                    o.serialize(format=op[1])
+                    res = ["unit"]
+                elif k == "add":
+                    o.add((URIRef(op[1]), URIRef(op[2]), Literal("v") if op[3] == "lit" else URIRef(op[3])))
+                    res = ["unit"]
+                else:
+                    res = do_op(o, op)
+            except Exception as e:  # noqa: BLE001
+                res = ["exn", "KeyError" if isinstance(e, KeyError) else "ValueError"]
+            obs.append(snapshot(root, res, names, objs.all()))
+            for i in range(len(case["objs"]) + 1):
+                for u in case["iris"]:
+                    obs.append(snapshot(root, do_op(objs.get(i), ["compute", u, False]), (), ()))
+        return obs
+
+    def coq_case(self, case):
+        ops = ["OOther" if op[0] in ("parse", "ser", "add") else c_op(op) for op in self.expanded_ops(case)]
+        return "{| c_cats := []; c_ops := " + clist(ops) + "; c_tag := " + cN(self.tag(case)) + " |}"
+
+    def features(self, case, obs):
+        f = {"root_" + case["root"]: 1, "defaults_" + str(case["defaults"]): 1, "snapshots": len(obs),
+             "in_F6e_region": self.tag(case)}
+        for k, _ in case["objs"]:
+            f["obj_" + k] = f.get("obj_" + k, 0) + 1
+        for o, v in zip(case["ops"], case["via"]):
+            k = "op_" + o[0] + ("_root" if v == 0 else "_named")
+            f[k] = f.get(k, 0) + 1
+        return f
+
+    def shrink(self, case):
+        ops, via = case["ops"], case["via"]
+        for i in range(len(ops)):
+            yield dict(case, ops=ops[:i] + ops[i + 1:], via=via[:i] + via[i + 1:])
+        if len(case["iris"]) > 1:
+            for i in range(len(case["iris"])):
+                yield dict(case, iris=case["iris"][:i] + case["iris"][i + 1:])
+
+
+SUITES = [C17(), C17Conf(), C17Dataset(), C17DsConf()]
 
 
 TRUSTED = [
@@ -527,10 +823,12 @@ TRUSTED = [
 ASSUMPTIONS = [
     "IRIs are passed to the manager as URIRef, prefixes and CURIEs as str (the qname cache and the tries key on the Python type too)",
     "the values of __strie alias nodes of __trie; the model looks the node up in the trie instead",
-    "one NamespaceManager per store (a second graph on the same store has a qname cache of its own; the parsers share "
-    "the sink's manager since the fix for F6d)",
+    "one NamespaceManager per store: the dataset object and the named graphs obtained from it share it (checked by the "
+    "nsdataset suite), the parsers share the sink's (F6d fix); a user-made second Graph on the store, and today "
+    "ConjunctiveGraph.default_context (finding F6e), have a qname cache of their own",
     "the while-loops that search a free numbered prefix are bounded by |bindings|+1 iterations",
 ]
-RULE = ("histories of 2-12 operations over 2-5 namespaces drawn from a nested/overlapping family and 2-5 prefixes "
+RULE = ("nsdataset: 2-6 operations routed through a Dataset/ConjunctiveGraph and 1-2 named graphs of it, every IRI asked "
+        "through every object after each step; nsmanager: histories of 2-12 operations over 2-5 namespaces drawn from a nested/overlapping family and 2-5 prefixes "
         "(empty, None, generated-looking, '_'-prefixed); distinct by full case content; non-trivial = contains a bind "
         "and a qname-like call")
